@@ -95,13 +95,38 @@ def lean_files():
                 yield os.path.join(root, f)
 
 
-def grep_audit():
-    hits = []
-    for path in lean_files():
-        if os.sep + '.audit' + os.sep in path:
+def module_path(mod):
+    return os.path.join(LEAN_DIR, *mod.split('.')) + '.lean'
+
+
+def import_closure(roots):
+    """Project files reachable from the given module names / file paths through `import`."""
+    seen = {}
+    todo = list(roots)
+    while todo:
+        r = todo.pop()
+        path = r if r.endswith('.lean') else module_path(r)
+        if path in seen or not os.path.exists(path):
             continue
         with open(path, encoding='utf-8') as f:
-            txt = strip_comments(f.read())
+            txt = f.read()
+        seen[path] = txt
+        for m in re.finditer(r'^\s*import\s+(SshuttleModel[\w.]*)', txt, re.M):
+            todo.append(m.group(1))
+    return seen
+
+
+def grep_audit(prop_id=None, drivers=()):
+    """Banned tokens in the files the property's theorems and drivers are built from."""
+    hits = []
+    if prop_id is None:
+        files = {p: open(p, encoding='utf-8').read() for p in lean_files()}
+    else:
+        roots = ['SshuttleModel.Props.' + prop_id]
+        roots += [os.path.join(LEAN_DIR, 'Drivers', d + '.lean') for d in drivers]
+        files = import_closure(roots)
+    for path, raw in sorted(files.items()):
+        txt = strip_comments(raw)
         for ln, line in enumerate(txt.split('\n'), 1):
             if BANNED.search(line):
                 hits.append('%s:%d: %s' % (os.path.relpath(path, VERIF), ln, line.strip()[:120]))
